@@ -303,7 +303,20 @@ def pre_publish_edits(case):
     return remove, add
 
 
+def prior_case(case, prior) -> dict:
+    """an earlier run of the package operation on the same tree: the case's configuration with the switches of `prior` (clean, platforms, …)"""
+    return {**{k: v for k, v in case.items() if k not in ("fault", "prior", "history")}, **prior, "phase": "package"}
+
+
 def model_request(case, templates) -> dict:
+    req = _model_request(case, templates)
+    if case.get("prior"):
+        # the history of the tree: the configurations of the earlier (succeeding) package runs — Lean `afterRuns`
+        req["prior"] = [_model_request(prior_case(case, p), templates)["cfg"] for p in case["prior"]]
+    return req
+
+
+def _model_request(case, templates) -> dict:
     key = case["key"]
     mode = case.get("publish_mode", "local")
     cfg = {"key": key, "target": TARGET, "version": VERSION, "configuration": case.get("configuration", "release"),
@@ -514,7 +527,7 @@ def _run_case(case, root: Path, api):
     def out_listing():
         return sorted(list(p.relative_to(out_dir).parts) for p in out_dir.rglob("*") if p.is_file()) if out_dir.exists() else []
 
-    def do_package(a):
+    def do_package(a, case=case, opts=opts):
         pc = a.configure(options=opts).package(key, conf)
         for plat, archs in case["platforms"]:
             pc.build(plat, architectures=set(archs) if case.get("explicit") else None, clean=bool(case.get("clean")))
@@ -522,6 +535,14 @@ def _run_case(case, root: Path, api):
 
     obs = {}
     helpers = case.get("helpers") or ()
+    # the history of the output tree: earlier package runs with succeeding tools, each like a command line call of its own (a fresh API
+    # object), in the same project directory into the same `package.out`; nothing is removed between the runs
+    for prior in case.get("prior") or ():
+        pc_ = prior_case(case, prior)
+        _arm(root, None, helpers)
+        code, exc = _guarded(lambda: do_package(API(), pc_, options(pc_, root)))
+        if code is not None or os.getcwd() != str(proj) or not out_listing():
+            return {"prepare_failed": True, "code": code, "exc": exc, "cwdAfter": _rel(root, os.getcwd())}
     if case["phase"] == "package":
         _arm(root, case.get("fault"), helpers)
         tree_before = _tree(root)
